@@ -134,7 +134,10 @@ func (g *GettyRemoting) NotifyRpcMessageResponse(rpcMessage message.RpcMessage) 
 		messageFuture.Response = rpcMessage.Body
 		// todo add messageFuture.Err
 		// messageFuture.Err = rpcMessage.Err
-		messageFuture.Done <- struct{}{}
+		select {
+		case messageFuture.Done <- struct{}{}:
+		default: // already completed (duplicate reply): discard
+		}
 		// client.msgFutures.Delete(rpcMessage.RequestID)
 	} else {
 		log.Infof("msg: {} is not found in msgFutures.", rpcMessage.ID)
